@@ -19,6 +19,8 @@ CHUNKED_INV = [
 
 
 def install(reg):
+    from contracts.parser import fdn
+    reg.spec_funcs["fdn"] = fdn
     reg.add_class(ClassSpec("utilities.BadRequest", fields={"body": Str}))
     reg.add(FuncContract("utilities.Error.__init__", params={"body": Str}, fresh_self=True, inline=True))
     reg.add_class(ClassSpec("receiver.FixedStreamReceiver",
@@ -46,6 +48,10 @@ def install(reg):
         ("s-bounded", "len(s) <= orig_size or (self.error is not None and self.trailer == b'' and len(s) <= orig_size + 1)"),
         ("trailer-untouched-while-input-left", "implies(len(s) > 0, self.trailer == old(self.trailer))"),
         ("orig-size", "orig_size == len(old(s))"),
+        ("trailer-phase-carry", "implies(old(self.all_chunks_received) and old(self.error) is None and len(s) == 0 and len(old(s)) > 0 and not self.completed,"
+                                " self.trailer == old(self.trailer) + old(s) and self.all_chunks_received and self.error is None)"),
+        ("trailer-phase-call-sees-the-whole-input", "implies(old(self.all_chunks_received) and old(self.error) is None and len(s) > 0,"
+                                                    " s == old(s) and self.all_chunks_received and self.error is None)"),
         ("not-completed-in-loop", "not self.completed"),
         ("view-extends", "self.buf.view.startswith(old(self.buf.view))"),
         ("error-stops", "implies(self.error is not None, True)"),
@@ -57,9 +63,19 @@ def install(reg):
             ("progress", "implies(not old(self.completed) and len(s) >= 1, result >= 1)"),
             ("view-extends", "self.buf.view.startswith(old(self.buf.view))"),
             ("not-completed-consumes-all", "implies(not self.completed, result == len(s))"),
+            ("C02-no-trailer-consumes-exactly-up-to-the-final-crlf",
+             "implies(old(self.all_chunks_received) and not old(self.completed) and old(self.error) is None and (old(self.trailer) + s).startswith(%s),"
+             " self.completed and result == 2 - len(old(self.trailer)))" % CRLF),
+            ("C02-trailer-consumes-exactly-up-to-its-end",
+             "implies(old(self.all_chunks_received) and not old(self.completed) and old(self.error) is None and not (old(self.trailer) + s).startswith(%s)"
+             " and fdn(old(self.trailer) + s) >= 0, self.completed and result == fdn(old(self.trailer) + s) - len(old(self.trailer)))" % CRLF),
+            ("C02-unfinished-trailer-is-carried-over",
+             "implies(old(self.all_chunks_received) and not old(self.completed) and old(self.error) is None and not (old(self.trailer) + s).startswith(%s)"
+             " and fdn(old(self.trailer) + s) < 0 and len(s) > 0, not self.completed and self.trailer == old(self.trailer) + s and result == len(s)"
+             " and self.all_chunks_received and self.error is None)" % CRLF),
         ],
         loops={0: LoopSpec(invariants=loop_inv, variant="(0 if self.all_chunks_received else 1, len(s))"),
-               1: LoopSpec(invariants=[("true", "True")])},
+               1: LoopSpec(invariants=[("no-error-while-validating-the-trailer", "self.error is None")])},
         modifies=["self.chunk_remainder", "self.validate_chunk_end", "self.control_line", "self.chunk_end", "self.all_chunks_received",
                   "self.trailer", "self.completed", "self.error", "self.buf.view"]))
     reg.add(FuncContract("receiver.ChunkedReceiver.__len__", returns=Int, ensures=[("len", "result == len(self.buf.view)")]))
